@@ -109,6 +109,10 @@ def run_e1(prop, tier, seed, technique, plan, monitor, quick_budget, thorough_bu
         def variant_plan():
             xs = [(engine.Scenario("XC:net1+net2/lazy", "leaves..tutorial_get.explicit_clicked", "net1 net2", lazy=True, shared=setup), 1),
                   (engine.Scenario("XC:net1+net2/eager", "leaves..tutorial_get.explicit_clicked", "net1 net2", lazy=False, shared=setup), 0 if tier == "quick" else 1)]
+            # the two-object producer's states left in the shared pool by an earlier run: the dependant has to be told where both are
+            both = setup + [("image1_vm1", "guisetup1.clicked"), ("image1_vm2", "guisetup.clicked")]
+            xs.append((engine.Scenario("XC:net1+net2/lazy", "leaves..tutorial_get.explicit_clicked", "net1 net2", lazy=True, shared=both).variant("/shared=setup+clicked"), 0))
+            xs.append((engine.Scenario("XC:net1/eager", "leaves..tutorial_get.explicit_clicked", "net1", lazy=False, shared=both).variant("/shared=setup+clicked"), 0))
             return xs
 
         alts.append(("mini+" + vname, {"suite": "mini", "tests_overwrite": vtext}, "@" + vname, variant_plan))
